@@ -293,6 +293,11 @@ func vfReadResponse(br *bufio.Reader, req *http.Request) (*http.Response, error)
 	}
 	resp := &http.Response{Status: spec.status, StatusCode: spec.statusCode, Proto: "HTTP/1.1", ProtoMajor: 1, ProtoMinor: 1,
 		Header: spec.header, Body: &vfBody{data: spec.body}, Request: req}
+	// as net/http reports it for a head without Content-Length / Transfer-Encoding:
+	// no body allowed for 1xx, 204, 304 (length 0), otherwise close-delimited (-1)
+	if c := spec.statusCode; !(c/100 == 1 || c == 204 || c == 304) {
+		resp.ContentLength = -1
+	}
 	return resp, nil
 }
 
